@@ -159,6 +159,18 @@ F5b == {Prog("F5b", <<S(Call("h", <<>>)), S(Asg("=", Var("b"), c))>>) : c \in Ca
        \cup {Prog("F5b", <<S(Asg("=", Var("a"), Bin(op, Call("f", <<x>>), Call("k", <<>>))))>>) : x \in Arg, op \in {"+", "-"}}
        \cup {Prog("F5b", <<S(Asg("=", Var("a"), Call("m2", <<x>>)))>>) : x \in Arg}
 
+\* F6: calls of functions whose bodies contain loops, early returns, switches, locals and further calls
+\* (compared variant against variant by C14; these functions have no CSem body)
+C6 == {Call("lp", <<x>>) : x \in {Var("b"), Num(3), Var("X")}} \cup {Call("er", <<x>>) : x \in {Var("a"), Num(128), Idx("arr", Var("X"))}}
+      \cup {Call("sw", <<x>>) : x \in {Var("a"), Var("X"), Num(1)}} \cup {Call("n2", <<x>>) : x \in {Var("b"), Num(2)}} \cup {Call("n3", <<x>>) : x \in {Var("a"), Var("b")}}
+F6 == {Prog("F6", <<S(Asg("=", d, c1))>>) : d \in {Var("a"), Var("X"), Idx("arr", Num(1))}, c1 \in C6}
+      \cup {Prog("F6", <<S(Asg("=", Var("a"), c1)), S(Asg("=", Var("b"), c2))>>) : c1 \in C6, c2 \in C6}
+      \cup {Prog("F6", <<S(Asg("=", Var("a"), Bin(op, c1, r)))>>) : op \in {"+", "&"}, c1 \in C6, r \in {Var("b"), Num(1)}}
+      \cup {Prog("F6", <<If(Bin(op, c1, Num(2)), ThenElse[1], ThenElse[2])>>) : op \in {"==", "<"}, c1 \in C6}
+      \cup {Prog("F6", <<For(Asg("=", Var("X"), Num(0)), Bin("<", Var("X"), Num(3)), Inc(FALSE, 1, Var("X")), <<S(Asg("+", Var("c"), c1))>>)>>) : c1 \in {Call("sw", <<Var("X")>>), Call("lp", <<Var("X")>>), Call("n2", <<Var("b")>>)}}
+      \cup {Prog("F6", <<S(Call("vd", <<x>>)), S(Asg("=", Var("b"), c1))>>) : x \in {Var("a"), Num(0), Var("X")}, c1 \in C6}
+      \cup {Prog("F6", <<S(Call("vd", <<c1>>))>>) : c1 \in C6}
+
 \* F7: statement sequences (stale flag / register beliefs across statements)
 Pool == {S(Asg("=", Var("a"), Var("b"))), S(Asg("=", Var("X"), Var("a"))), S(Asg("=", Var("Y"), Var("a"))), S(Inc(FALSE, 1, Var("a"))), S(Inc(TRUE, -1, Var("X"))),
          S(Asg("+", Var("s"), Var("a"))), S(Asg("=", Idx("arr", Var("X")), Var("a"))), S(Asg("=", Var("b"), Idx("arr", Var("Y")))),
@@ -173,16 +185,48 @@ FW == {Prog("FW", <<S(Asg("=", Var("s"), Bin("<<", Var("a"), Num(1))))>>), Prog(
        Prog("FW", <<S(Asg("=", Var("ss"), Un("!", Var("a"))))>>), Prog("FW", <<S(Asg("=", Var("s"), Un("~", Var("s"))))>>),
        Prog("FW", <<S(Asg("=", Var("s"), Bin("<", Var("a"), Var("b"))))>>), Prog("FW", <<S(Asg("=", Var("s"), Call("f", <<Var("b")>>)))>>),
        Prog("FW", <<S(Asg("=", Var("s"), Cond(Bin("<", Var("a"), Num(200)), Num(5), Var("X"))))>>)}
-AllFams == FW \cup F1a \cup F1b \cup F1c \cup F1d \cup F1e \cup F1f \cup F1g \cup F2a \cup F2b \cup F2c \cup F2z \cup F2s
+\* RW: pairs of programs related by a meaning-preserving source transformation (C15)
+Pair2(rule, a, b) == [fam |-> "RW", rule |-> rule, body |-> a, body2 |-> b]
+RwLeaf == {Var("a"), Var("b"), Var("X"), Var("Y"), Idx("arr", Var("X")), Idx("arr", Num(2)), Num(1), Num(200), Var("s")}
+RwDst == {Var("a"), Var("X"), Var("s"), Idx("arr", Var("Y"))}
+RwCond == {Bin("<", Var("a"), Var("b")), Bin("==", Var("X"), Num(1)), Var("Y"), Bin(">=", Var("a"), Num(200)), Bin("!=", Var("b"), Idx("arr", Var("X"))), Bin("&&", Var("a"), Var("b"))}
+RW == {Pair2("commute", <<S(Asg("=", d, Bin(op, l, r)))>>, <<S(Asg("=", d, Bin(op, r, l)))>>) : d \in RwDst, op \in {"+", "&", "|", "^"}, l \in RwLeaf, r \in RwLeaf}
+      \cup {Pair2("compound", <<S(Asg(op, d, r))>>, <<S(Asg("=", d, Bin(op, d, r)))>>) : d \in RwDst, op \in {"+", "-", "&", "|", "^"}, r \in RwLeaf}
+      \cup {Pair2("compound", <<S(Asg(op, d, n))>>, <<S(Asg("=", d, Bin(op, d, n)))>>) : d \in {Var("a"), Var("X"), Idx("arr", Var("Y"))}, op \in {"<<", ">>"}, n \in {Num(1), Num(3)}}
+      \cup {Pair2("preinc", <<S(Inc(TRUE, dd, d))>>, <<S(Asg(IF dd = 1 THEN "+" ELSE "-", d, Num(1)))>>) : dd \in {1, -1}, d \in RwDst}
+      \cup {Pair2("preinc", <<S(Inc(FALSE, dd, d))>>, <<S(Asg(IF dd = 1 THEN "+" ELSE "-", d, Num(1)))>>) : dd \in {1, -1}, d \in RwDst}
+      \cup {Pair2("preinc", <<S(Asg("=", x, Inc(TRUE, 1, d)))>>, <<S(Asg("+", d, Num(1))), S(Asg("=", x, d))>>) : x \in {Var("b"), Var("Y")}, d \in {Var("a"), Var("X"), Var("s")}}
+      \cup {Pair2("negcond", <<If(c, <<Set("c", 1)>>, <<Set("c", 2)>>)>>, <<If(Un("!", c), <<Set("c", 2)>>, <<Set("c", 1)>>)>>) : c \in RwCond}
+      \cup {Pair2("negcond", <<If(c, <<S(Inc(FALSE, 1, Var("a")))>>, <<S(Asg("=", Var("X"), Var("b")))>>)>>, <<If(Un("!", c), <<S(Asg("=", Var("X"), Var("b")))>>, <<S(Inc(FALSE, 1, Var("a")))>>)>>) : c \in RwCond}
+      \cup {Pair2("swaprel", <<If(Bin(o[1], l, r), <<Set("c", 1)>>, <<Set("c", 2)>>)>>, <<If(Bin(o[2], r, l), <<Set("c", 1)>>, <<Set("c", 2)>>)>>) :
+               o \in {<<"<", ">">>, <<"<=", ">=">>, <<">", "<">>, <<">=", "<=">>}, l \in CmpLeaf, r \in CmpLeaf}
+      \cup {Pair2("swaprel", <<S(Asg("=", Var("c"), Bin(o[1], l, r)))>>, <<S(Asg("=", Var("c"), Bin(o[2], r, l)))>>) :
+               o \in {<<"<", ">">>, <<"<=", ">=">>}, l \in CmpLeaf, r \in CmpLeaf}
+      \cup {Pair2("forwhile", <<For(Asg("=", i, Num(lo)), Bin(op, i, hi), Inc(FALSE, 1, i), b)>>,
+                               <<S(Asg("=", i, Num(lo))), While(Bin(op, i, hi), b \o <<S(Inc(FALSE, 1, i))>>)>>) :
+               i \in Ctr, lo \in {0, 2}, op \in {"<", "!="}, hi \in {Num(3), Num(5), Var("b")}, b \in Bodies}
+      \cup {Pair2("switchif", <<Switch(e, <<Case(<<0>>, <<Set("c", 10), Break>>), Case(<<1, 2>>, <<Set("c", 20), Break>>), Default(<<Set("b", 30)>>)>>)>>,
+                               <<If(Bin("==", e, Num(0)), <<Set("c", 10)>>, <<If(Bin("||", Bin("==", e, Num(1)), Bin("==", e, Num(2))), <<Set("c", 20)>>, <<Set("b", 30)>>)>>)>>) :
+               e \in {Var("a"), Var("X"), Var("Y"), Idx("arr", Var("X"))}}
+      \cup {Pair2("switchif", <<Switch(e, <<Case(<<3>>, <<S(Inc(FALSE, 1, Var("c")))>>), Case(<<200>>, <<Set("b", 7), Break>>), Default(<<Set("b", 9)>>)>>)>>,
+                               <<If(Bin("==", e, Num(3)), <<S(Inc(FALSE, 1, Var("c"))), Set("b", 7)>>, <<If(Bin("==", e, Num(200)), <<Set("b", 7)>>, <<Set("b", 9)>>)>>)>>) :
+               e \in {Var("a"), Var("X")}}
+      \cup {Pair2("regindex", <<Set(r, kk), S(Asg("=", d, Idx("arr", Var(r))))>>, <<Set(r, kk), S(Asg("=", d, Idx("arr", Num(kk))))>>) : r \in {"X", "Y"}, kk \in {0, 2, 7}, d \in {Var("a"), Var("s"), Var("b")}}
+      \cup {Pair2("regindex", <<Set(r, kk), S(Asg(op, Idx("arr", Var(r)), v))>>, <<Set(r, kk), S(Asg(op, Idx("arr", Num(kk)), v))>>) : r \in {"X", "Y"}, kk \in {1, 5}, op \in {"=", "+", "|"}, v \in {Var("a"), Num(3)}}
+      \cup {Pair2("callbody", <<S(Asg("=", d, Call("f", <<x>>)))>>, <<S(Asg("=", d, Bin("+", x, Num(1))))>>) : d \in {Var("a"), Var("X"), Idx("arr", Var("Y"))}, x \in Arg}
+      \cup {Pair2("callbody", <<S(Asg("=", d, Call("g", <<x, y>>)))>>, <<S(Asg("=", d, Bin("-", x, y)))>>) : d \in {Var("a"), Var("Y")}, x \in Arg, y \in {Var("b"), Num(1)}}
+      \cup {Pair2("callbody", <<S(Call("h", <<>>)), S(Asg("=", Var("b"), Var("a")))>>, <<S(Inc(FALSE, 1, Var("a"))), S(Asg("=", Var("b"), Var("a")))>>)}
+      \cup {Pair2("callbody", <<S(Call("w", <<x>>))>>, <<S(Asg("=", Var("c"), x))>>) : x \in Arg}
+AllFams == FW \cup F6 \cup F1a \cup F1b \cup F1c \cup F1d \cup F1e \cup F1f \cup F1g \cup F2a \cup F2b \cup F2c \cup F2z \cup F2s
            \cup F3a \cup F3b \cup F3c \cup F4 \cup F5a \cup F5b \cup F7a \cup F7b
 Family ==
-  CASE Fam = "ALL" -> AllFams
+  CASE Fam = "ALL" -> AllFams [] Fam = "RW" -> RW
     [] Fam = "F1a" -> F1a [] Fam = "F1b" -> F1b [] Fam = "F1c" -> F1c [] Fam = "F1d" -> F1d
     [] Fam = "F1e" -> F1e [] Fam = "F1f" -> F1f [] Fam = "F1g" -> F1g
     [] Fam = "F2a" -> F2a [] Fam = "F2b" -> F2b [] Fam = "F2c" -> F2c [] Fam = "F2z" -> F2z [] Fam = "F2s" -> F2s
     [] Fam = "F3a" -> F3a [] Fam = "F3b" -> F3b [] Fam = "F3c" -> F3c
     [] Fam = "F4" -> F4 [] Fam = "F5a" -> F5a [] Fam = "F5b" -> F5b
-    [] Fam = "F7a" -> F7a [] Fam = "F7b" -> F7b [] Fam = "FW" -> FW
+    [] Fam = "F7a" -> F7a [] Fam = "F7b" -> F7b [] Fam = "FW" -> FW [] Fam = "F6" -> F6
 
 VARIABLE prog
 Init == prog \in Family
